@@ -291,3 +291,7 @@ M("C13", "C13.invariants", _DS, "        if self._delayingPreconditionCheck:\n  
 RF("C13", _DS, "        if self._delayingPreconditionCheck:\n            self._checkAllPreconditions()", "        if not self._delayingPreconditionCheck:\n            pass\n        else:\n            self._checkAllPreconditions()", "c13-rf-delayed-check-inverted")
 M("C14", "C14.started", _DS, "            try:\n                self._checkAllPreconditions()\n            except BaseException:\n                # We have not started anything yet, but must not stay marked as running:\n                # this object is started again by the next simulation.\n                super()._stop()\n                raise\n", "            self._checkAllPreconditions()\n", "c14-start-unprotected-guard")
 M("C14", "C14.started", _DS, "                super()._stop()\n                raise\n", "                raise\n", "c14-start-handler-keeps-mark")
+M("C18", "C18.recorded", _IV, "                choice = Options(enabled)", "                import random as _r\n                choice = _r.choices(tuple(enabled), weights=tuple(enabled.values()))[0]", "c18-runtime-direct-draw")
+M("C18", "C18.divergence", _SI, "            return diff > self.divergenceTolerance", "            return not math.isclose(diff, 0, abs_tol=self.divergenceTolerance)", "c18-divergence-isclose")
+M("C18", "C18.divergence", _SI, "            diff = (actual - expected).norm()", "            diff = (actual - expected).x", "c18-divergence-one-component")
+RF("C18", _SI, "        if diff:\n            return diff > self.divergenceTolerance\n        else:\n            return actual != expected", "        if not diff:\n            return actual != expected\n        return self.divergenceTolerance < diff", "c18-rf-divergence-restructured")
